@@ -87,6 +87,11 @@ def run_unit(u, tier='quick', mutant=None, tag=''):
         out.reasons.append('unit uses %d trusted construct(s) but declares no //! trusted: line' % len(out.trusted_hits))
         return out
     res = V.run_verus(u.name, asm.text, tag=tag)
+    if any(t.startswith('rlimit') for t in res.tool_errors):
+        # a resource limit is not a verdict: retry once with a 12x larger budget before giving up as undecided
+        res2 = V.run_verus(u.name, asm.text, rlimit=120, tag=tag)
+        res2.wall_s += res.wall_s
+        res = res2
     out.res = res
     vac_ranges = {'%s@%d' % (v['probe'], v['out_lines'][0]): v['out_lines'] for v in asm.info['vac']}
     vac_failed = set()
